@@ -1,5 +1,9 @@
-/- Helper lemmas for C09 (.tdda round trip). Statements mirror Props/C09.lean. -/
+/- Helper lemmas for C09 (.tdda round trip). Statements mirror Props/C09.lean.
+   Date text: Lemmas/DateText.lean; strip_lines: Lemmas/StripLines.lean; unknown keys: Lemmas/LoadField.lean. -/
 import TddaVerif.Model.TddaFile
+import TddaVerif.Lemmas.DateText
+import TddaVerif.Lemmas.LoadField
+import TddaVerif.Lemmas.StripLines
 
 namespace TddaVerif.Props.C09.Lemmas
 open TddaVerif.Py TddaVerif.TddaFile
@@ -53,41 +57,589 @@ def canonField (cs : List Con) : List Con :=
 def canonSet (fields : List (Line × List Con)) : List (Line × List Con) :=
   fields.map (fun f => (f.1, canonField f.2))
 
-theorem getDate_strDatetime (t : Civil) (h : t.valid = true) : getDate (strDatetime t) = .ok t := by
-  sorry
+theorem getDate_strDatetime (t : Civil) (h : t.valid = true) : getDate (strDatetime t) = .ok t :=
+  Aux.getDate_strDatetime t h
+
+theorem construct_dict (kind : Line) (a : Atom) (p : Line) (hb : isBound kind = true)
+    (hp : precisions.contains p = true) :
+    construct kind (.dict [(lit "value", a), (lit "precision", .str p)])
+      = .ok ⟨kind, .atom a, some p⟩ := by
+  have h1 : acceptsPrecision kind = true := hb
+  have h2 : (kind == lit "min" || kind == lit "max") = true := hb
+  have e1 : (lit "precision" == lit "value") = false := by decide
+  have e2 : (lit "value" == lit "precision") = false := by decide
+  have e3 : (lit "precision" == lit "comment") = false := by decide
+  unfold construct
+  simp only [List.any, lookupKw, List.find?, beq_self_eq_true, h1, h2, e1, e2, e3, Bool.true_or, Bool.not_true,
+    Bool.and_true, Bool.or_true, Bool.or_false, Bool.false_and, if_true, Option.map]
+  simpa using hp
+
+
+/-- the enumerated-value clause of `WFCon` -/
+def enumOK (kind : Line) (value : JVal) : Bool :=
+  (if kind == lit "sign" then (match value with | .atom a => validEnum signs a | _ => false)
+   else if kind == lit "type" then
+     (match value with
+      | .atom a => validEnum types a
+      | .list xs => xs.all (fun a => match a with | .str s => types.contains s | _ => false)
+      | _ => false)
+   else if kind == lit "no_duplicates" then
+     (match value with | .atom .null | .atom (.bool _) => true | _ => false)
+   else if kind == lit "rex" then
+     (match value with | .atom .null | .list _ => true | _ => false)
+   else true)
+
+theorem construct_plain (kind : Line) (v : JVal) (hv : ∀ kvs, v ≠ .dict kvs)
+    (h : isBound kind = true ∨ enumOK kind v = true) :
+    construct kind v = .ok ⟨kind, v, none⟩ := by
+  by_cases hb : (kind == lit "min" || kind == lit "max") = true
+  · unfold construct
+    cases v with
+    | dict kvs => exact absurd rfl (hv kvs)
+    | atom a => simp only [hb, if_true]
+    | list xs => simp only [hb, if_true]
+  · have he : enumOK kind v = true := by
+      rcases h with h | h
+      · exact absurd h hb
+      · exact h
+    unfold enumOK at he
+    unfold construct
+    by_cases h1 : (kind == lit "sign") = true
+    · simp only [h1, if_true] at he
+      cases v with
+      | dict kvs => exact absurd rfl (hv kvs)
+      | atom a => simp only [hb, h1, if_true]; simp only at he; simp [he]
+      | list xs => simp at he
+    · by_cases h2 : (kind == lit "type") = true
+      · simp only [h1, h2, if_true, Bool.false_eq_true, if_false] at he
+        cases v with
+        | dict kvs => exact absurd rfl (hv kvs)
+        | atom a => simp only [hb, h1, h2, if_true]; simp only at he; simp [he]
+        | list xs => simp only [hb, h1, h2, if_true, Bool.false_eq_true, if_false]; simp only at he; exact if_pos he
+      · by_cases h3 : (kind == lit "no_duplicates") = true
+        · simp only [h1, h2, h3, if_true, Bool.false_eq_true, if_false] at he
+          cases v with
+          | dict kvs => exact absurd rfl (hv kvs)
+          | atom a => cases a <;> simp_all
+          | list xs => simp at he
+        · by_cases h4 : (kind == lit "rex") = true
+          · simp only [h1, h2, h3, h4, if_true, Bool.false_eq_true, if_false] at he
+            cases v with
+            | dict kvs => exact absurd rfl (hv kvs)
+            | atom a => cases a <;> simp_all
+            | list xs => simp_all
+          · cases v with
+            | dict kvs => exact absurd rfl (hv kvs)
+            | atom a => simp only [hb, h1, h2, h3, h4]; rfl
+            | list xs => simp only [hb, h1, h2, h3, h4]; rfl
+
+
+/-- the value-shape clause of `WFCon` -/
+def valOK (isDate : Bool) (kind : Line) (value : JVal) : Bool :=
+  (match value with
+   | .atom (.datetime t) => isDate && isBound kind && t.valid
+   | .atom (.str s) => !(isDate && isBound kind) || (match getDate s with | .ok _ => false | _ => true)
+   | .atom _ => true
+   | .list xs => xs.all (fun a => match a with | .datetime _ => false | _ => true)
+   | .dict _ => false)
+
+def precOK (kind : Line) (value : JVal) (prec : Option Line) : Bool :=
+  (match prec with
+   | none => true
+   | some p => isBound kind && precisions.contains p &&
+               (match value with | .atom _ => true | _ => false))
+
+theorem WFCon_iff (isDate : Bool) (c : Con) :
+    WFCon isDate c = true ↔
+      (standardKinds.contains c.kind = true ∧ valOK isDate c.kind c.value = true ∧
+        precOK c.kind c.value c.precision = true ∧ enumOK c.kind c.value = true) := by
+  unfold WFCon
+  rw [Bool.and_eq_true, Bool.and_eq_true, Bool.and_eq_true]
+  constructor
+  · rintro ⟨⟨⟨h1, h2⟩, h3⟩, h4⟩; exact ⟨h1, h2, h3, h4⟩
+  · rintro ⟨h1, h2, h3, h4⟩; exact ⟨⟨⟨h1, h2⟩, h3⟩, h4⟩
+
+/-- the date re-parse undoes the rendering of an atom -/
+theorem reparse_render (isDate : Bool) (kind : Line) (a : Atom) (prec : Option Line)
+    (h : valOK isDate kind (.atom a) = true) :
+    (if (isDate && (kind == lit "min" || kind == lit "max")) = true
+      then reparseDate ⟨kind, .atom (renderAtom a), prec⟩ else ⟨kind, .atom (renderAtom a), prec⟩)
+      = (⟨kind, .atom a, prec⟩ : Con) := by
+  cases a with
+  | datetime t =>
+    simp only [valOK, Bool.and_eq_true] at h
+    have hc : (isDate && (kind == lit "min" || kind == lit "max")) = true := by
+      rw [Bool.and_eq_true]; exact h.1
+    rw [if_pos hc]
+    simp only [renderAtom, reparseDate, getDate_strDatetime t h.2]
+  | str s =>
+    by_cases hc : (isDate && (kind == lit "min" || kind == lit "max")) = true
+    · rw [if_pos hc]
+      have hc' : (isDate && isBound kind) = true := hc
+      simp only [valOK, hc', Bool.not_true, Bool.false_or] at h
+      simp only [renderAtom, reparseDate]
+      cases hg : getDate s with
+      | ok t => rw [hg] at h; simp at h
+      | notDate => rfl
+      | invalid => rfl
+    · rw [if_neg hc]; rfl
+  | null => split <;> rfl
+  | bool b => split <;> rfl
+  | int n => split <;> rfl
+  | float r => split <;> rfl
+
+theorem step_conToDict (name : Line) (isDate : Bool) (acc : List Con × List (Line × Line)) (c : Con)
+    (hwf : WFCon isDate c = true) :
+    Aux.step name isDate acc (c.kind, conToDict c) = .ok (putCon acc.1 c, acc.2) := by
+  obtain ⟨h1, h2, h3, h4⟩ := (WFCon_iff isDate c).mp hwf
+  obtain ⟨kind, value, prec⟩ := c
+  simp only at h1 h2 h3 h4
+  unfold Aux.step
+  simp only [h1, if_true]
+  cases prec with
+  | some p =>
+    simp only [precOK, Bool.and_eq_true] at h3
+    obtain ⟨⟨hb, hp⟩, hv⟩ := h3
+    cases value with
+    | atom a =>
+      have e : conToDict ⟨kind, .atom a, some p⟩ = .dict [(lit "value", renderAtom a), (lit "precision", .str p)] := rfl
+      rw [e, construct_dict kind _ p hb hp]
+      simp only
+      rw [reparse_render isDate kind a (some p) h2]
+    | list xs => simp at hv
+    | dict kvs => simp at hv
+  | none =>
+    cases value with
+    | dict kvs => simp [valOK] at h2
+    | list xs =>
+      have e : conToDict ⟨kind, .list xs, none⟩ = .list xs := rfl
+      rw [e, construct_plain kind _ (by intro kvs; simp) (Or.inr h4)]
+      simp only
+      split <;> rfl
+    | atom a =>
+      have e : conToDict ⟨kind, .atom a, none⟩ = .atom (renderAtom a) := rfl
+      have hcp : construct kind (.atom (renderAtom a)) = .ok ⟨kind, .atom (renderAtom a), none⟩ := by
+        apply construct_plain kind _ (by intro kvs; simp)
+        cases a with
+        | datetime t =>
+          simp only [valOK, Bool.and_eq_true] at h2
+          exact Or.inl h2.1.2
+        | str s => exact Or.inr h4
+        | null => exact Or.inr h4
+        | bool b => exact Or.inr h4
+        | int n => exact Or.inr h4
+        | float r => exact Or.inr h4
+      rw [e, hcp]
+      simp only
+      rw [reparse_render isDate kind a none h2]
+
+
+/-! ### lists of constraints -/
+
+theorem putCon_new (cs : List Con) (c : Con) (h : c.kind ∉ cs.map (·.kind)) : putCon cs c = cs ++ [c] := by
+  unfold putCon
+  have : cs.any (fun x => x.kind == c.kind) = false := by
+    rw [List.any_eq_false]
+    intro x hx hk
+    apply h
+    have : x.kind = c.kind := by simpa using hk
+    rw [← this]
+    exact List.mem_map_of_mem hx
+  rw [this]; rfl
+
+/-- the dictionary entry of one constraint -/
+def entry (c : Con) : Line × JVal := (c.kind, conToDict c)
+
+theorem fold_step (name : Line) (isDate : Bool) :
+    ∀ (l : List Con) (acc : List Con × List (Line × Line)),
+      (∀ c ∈ l, WFCon isDate c = true) → ((acc.1 ++ l).map (·.kind)).Nodup →
+      (l.map entry).foldlM (Aux.step name isDate) acc = .ok (acc.1 ++ l, acc.2) := by
+  intro l
+  induction l with
+  | nil => intro acc _ _; simp [pure, Except.pure]
+  | cons c rest ih =>
+    intro acc hwf hnd
+    rw [List.map_cons, List.foldlM_cons]
+    have hs : Aux.step name isDate acc (entry c) = .ok (putCon acc.1 c, acc.2) :=
+      step_conToDict name isDate acc c (hwf c (List.mem_cons_self ..))
+    rw [hs]
+    have hnew : c.kind ∉ acc.1.map (·.kind) := by
+      rw [List.map_append, List.map_cons] at hnd
+      intro hmem
+      have := (List.nodup_append.mp hnd).2.2 _ hmem _ (List.mem_cons_self ..)
+      exact this rfl
+    rw [putCon_new _ _ hnew]
+    show List.foldlM (Aux.step name isDate) (acc.1 ++ [c], acc.2) (rest.map entry) = _
+    rw [ih (acc.1 ++ [c], acc.2) (fun x hx => hwf x (List.mem_cons_of_mem _ hx))
+      (by simpa [List.append_assoc] using hnd)]
+    simp [List.append_assoc]
+
+/-! ### the preferred order -/
+
+theorem std_nodup : standardKinds.Nodup := by decide
+
+theorem toPreferredOrder_std (keys : List Line) (h : ∀ k ∈ keys, standardKinds.contains k = true) :
+    toPreferredOrder keys standardKinds = standardKinds.filter (fun k => keys.contains k) := by
+  unfold toPreferredOrder
+  have : keys.filter (fun k => !standardKinds.contains k) = [] := by
+    rw [List.filter_eq_nil_iff]
+    intro k hk
+    have := h k hk
+    simp only [this, Bool.not_true]; exact Bool.false_ne_true
+  rw [this]
+  simp [sortLines]
+
+theorem find_kind (cs : List Con) (k : Line) (h : k ∈ cs.map (·.kind)) :
+    ∃ c, cs.find? (fun c => c.kind == k) = some c ∧ c.kind = k ∧ c ∈ cs := by
+  cases hf : cs.find? (fun c => c.kind == k) with
+  | none =>
+    rw [List.find?_eq_none] at hf
+    obtain ⟨c, hc, rfl⟩ := List.mem_map.mp h
+    exact absurd (by simp) (hf c hc)
+  | some c =>
+    refine ⟨c, rfl, ?_, List.mem_of_find?_eq_some hf⟩
+    have := List.find?_some hf
+    simpa using this
+
+theorem find_of_nodup (l : List Con) (c : Con) (hn : (l.map (·.kind)).Nodup) (hc : c ∈ l) :
+    l.find? (fun x => x.kind == c.kind) = some c := by
+  induction l with
+  | nil => cases hc
+  | cons x xs ih =>
+    rw [List.map_cons, List.nodup_cons] at hn
+    rcases List.mem_cons.mp hc with rfl | hc'
+    · simp
+    · have hne : (x.kind == c.kind) = false := by
+        cases hxc : x.kind == c.kind with
+        | false => rfl
+        | true =>
+          have : x.kind = c.kind := by simpa using hxc
+          exact absurd (this ▸ List.mem_map_of_mem hc') hn.1
+      rw [List.find?_cons, hne]
+      exact ih hn.2 hc'
+
+/-- kinds all standard -/
+def AllStd (cs : List Con) : Prop := ∀ c ∈ cs, standardKinds.contains c.kind = true
+
+theorem canonField_eq (cs : List Con) (h : AllStd cs) :
+    canonField cs = (standardKinds.filter (fun k => (cs.map (·.kind)).contains k)).filterMap
+      (fun k => cs.find? (fun c => c.kind == k)) := by
+  unfold canonField
+  rw [toPreferredOrder_std]
+  intro k hk
+  obtain ⟨c, hc, rfl⟩ := List.mem_map.mp hk
+  exact h c hc
+
+theorem filterMap_find_kinds (cs : List Con) :
+    ∀ (M : List Line), (∀ k ∈ M, k ∈ cs.map (·.kind)) →
+      (M.filterMap (fun k => cs.find? (fun c => c.kind == k))).map (·.kind) = M := by
+  intro M
+  induction M with
+  | nil => intro _; rfl
+  | cons k M ih =>
+    intro h
+    obtain ⟨c, hf, hk, _⟩ := find_kind cs k (h k (List.mem_cons_self ..))
+    rw [List.filterMap_cons, hf]
+    simp only [List.map_cons, hk]
+    rw [ih (fun k' hk' => h k' (List.mem_cons_of_mem _ hk'))]
+
+theorem canonField_kinds (cs : List Con) (h : AllStd cs) :
+    (canonField cs).map (·.kind) = standardKinds.filter (fun k => (cs.map (·.kind)).contains k) := by
+  rw [canonField_eq cs h]
+  apply filterMap_find_kinds
+  intro k hk
+  have := (List.mem_filter.mp hk).2
+  simpa using this
+
+theorem canonField_nodup (cs : List Con) (h : AllStd cs) : ((canonField cs).map (·.kind)).Nodup := by
+  rw [canonField_kinds cs h]
+  exact List.Pairwise.sublist List.filter_sublist std_nodup
+
+theorem canonField_mem (cs : List Con) (c : Con) (hc : c ∈ canonField cs) :
+    cs.find? (fun x => x.kind == c.kind) = some c := by
+  unfold canonField at hc
+  obtain ⟨k, _, hf⟩ := List.mem_filterMap.mp hc
+  have : c.kind = k := by simpa using List.find?_some hf
+  rw [this]; exact hf
+
+theorem canonField_sub (cs : List Con) (c : Con) (hc : c ∈ canonField cs) : c ∈ cs :=
+  List.mem_of_find?_eq_some (canonField_mem cs c hc)
+
+theorem canonField_find (cs : List Con) (h : AllStd cs) (k : Line) :
+    (canonField cs).find? (fun c => c.kind == k) = cs.find? (fun c => c.kind == k) := by
+  cases hf : cs.find? (fun c => c.kind == k) with
+  | none =>
+    rw [List.find?_eq_none] at hf ⊢
+    intro c hc
+    exact hf c (canonField_sub cs c hc)
+  | some c =>
+    have hk : c.kind = k := by simpa using List.find?_some hf
+    have hmem : c ∈ cs := List.mem_of_find?_eq_some hf
+    have hcL : c ∈ canonField cs := by
+      rw [canonField_eq cs h]
+      refine List.mem_filterMap.mpr ⟨k, ?_, hf⟩
+      rw [List.mem_filter]
+      refine ⟨?_, ?_⟩
+      · have := h c hmem
+        rw [hk] at this
+        simpa using this
+      · have : k ∈ cs.map (·.kind) := hk ▸ List.mem_map_of_mem hmem
+        simpa using this
+    rw [← hk]
+    exact find_of_nodup _ c (canonField_nodup cs h) hcL
+
+theorem filterMap_congr' {α β : Type} (f g : α → Option β) :
+    ∀ (l : List α), (∀ a ∈ l, f a = g a) → l.filterMap f = l.filterMap g := by
+  intro l
+  induction l with
+  | nil => intro _; rfl
+  | cons a l ih =>
+    intro h
+    rw [List.filterMap_cons, List.filterMap_cons, h a (List.mem_cons_self ..),
+      ih (fun b hb => h b (List.mem_cons_of_mem _ hb))]
+
+theorem fieldToDict_eq (cs : List Con) : fieldToDict cs = (canonField cs).map entry := by
+  unfold fieldToDict canonField
+  rw [List.map_filterMap]
+  apply filterMap_congr'
+  intro k _
+  cases hf : cs.find? (fun c => c.kind == k) with
+  | none => rfl
+  | some c =>
+    have hk : c.kind = k := by simpa using List.find?_some hf
+    simp [entry, hk]
+
+theorem isDateField_canon (cs : List Con) (h : AllStd cs) : isDateField (canonField cs) = isDateField cs := by
+  unfold isDateField
+  rw [canonField_find cs h]
+
+
+/-! ### one field -/
+
+theorem WFField_iff (cs : List Con) :
+    WFField cs = true ↔ cs ≠ [] ∧ (cs.map (·.kind)).eraseDups.length = cs.length ∧
+      ∀ c ∈ cs, WFCon (isDateField cs) c = true := by
+  unfold WFField
+  rw [Bool.and_eq_true, Bool.and_eq_true, List.all_eq_true]
+  simp [and_assoc]
+
+theorem WFField.allStd {cs : List Con} (h : WFField cs = true) : AllStd cs := by
+  intro c hc
+  exact ((WFCon_iff _ c).mp (((WFField_iff cs).mp h).2.2 c hc)).1
+
+theorem canonField_ne_nil (cs : List Con) (h : AllStd cs) (hne : cs ≠ []) : canonField cs ≠ [] := by
+  cases cs with
+  | nil => exact absurd rfl hne
+  | cons c rest =>
+    intro hnil
+    have hfind := canonField_find (c :: rest) h c.kind
+    rw [hnil] at hfind
+    simp at hfind
+
+/-- the dictionary's own `type` entry tells whether the field is a date field -/
+theorem dictIsDate_fieldToDict (cs : List Con) (h : WFField cs = true) :
+    Aux.dictIsDate (fieldToDict cs) = isDateField cs := by
+  have hstd := WFField.allStd h
+  unfold Aux.dictIsDate loadField.lookupKindVal isDateField
+  rw [fieldToDict_eq, List.find?_map]
+  have : ((fun kv : Line × JVal => kv.1 == lit "type") ∘ entry) = (fun c : Con => c.kind == lit "type") := rfl
+  rw [this, canonField_find cs hstd]
+  cases hf : cs.find? (fun c => c.kind == lit "type") with
+  | none => rfl
+  | some c =>
+    have hk : c.kind = lit "type" := by simpa using List.find?_some hf
+    have hmem : c ∈ cs := List.mem_of_find?_eq_some hf
+    obtain ⟨_, h2, h3, _⟩ := (WFCon_iff _ c).mp (((WFField_iff cs).mp h).2.2 c hmem)
+    obtain ⟨kind, value, prec⟩ := c
+    simp only at hk h2 h3
+    subst hk
+    have hnb : isBound (lit "type") = false := by decide
+    have hprec : prec = none := by
+      cases prec with
+      | none => rfl
+      | some p => simp [precOK, hnb] at h3
+    subst hprec
+    have hval : conToDict ⟨lit "type", value, none⟩ = value := by
+      cases value with
+      | atom a =>
+        cases a with
+        | datetime t => simp [valOK, hnb] at h2
+        | _ => rfl
+      | _ => rfl
+    simp only [Option.map_some, entry, hval]
+
+theorem loadField_fieldToDict (name : Line) (cs : List Con) (h : WFField cs = true) :
+    loadField name (fieldToDict cs) = .ok (canonField cs, []) := by
+  have hstd := WFField.allStd h
+  rw [Aux.loadField_eq, dictIsDate_fieldToDict cs h, fieldToDict_eq]
+  have := fold_step name (isDateField cs) (canonField cs) ([], [])
+    (fun c hc => ((WFField_iff cs).mp h).2.2 c (canonField_sub cs c hc))
+    (by simpa using canonField_nodup cs hstd)
+  simpa using this
+
+/-! ### the whole set -/
+
+/-- one step of the `fromDict` fold -/
+def stepF (acc : Loaded) (f : Line × List (Line × JVal)) : Except LoadErr Loaded :=
+  match loadField f.1 f.2 with
+  | .error e => .error e
+  | .ok (cs, ws) =>
+    .ok { fields := if cs.isEmpty then acc.fields else putField acc.fields f.1 cs,
+          warnings := acc.warnings ++ ws }
+
+theorem fromDict_eq (d : List (Line × List (Line × JVal))) :
+    fromDict d = d.foldlM stepF { fields := [], warnings := [] } := rfl
+
+theorem putField_new (fs : List (Line × List Con)) (name : Line) (cs : List Con)
+    (h : name ∉ fs.map (·.1)) : putField fs name cs = fs ++ [(name, cs)] := by
+  unfold putField
+  have : fs.any (fun f => f.1 == name) = false := by
+    rw [List.any_eq_false]
+    intro x hx hk
+    apply h
+    have : x.1 = name := by simpa using hk
+    rw [← this]
+    exact List.mem_map_of_mem hx
+  rw [this]; rfl
+
+theorem fold_fields :
+    ∀ (fs : List (Line × List Con)) (acc : Loaded),
+      (∀ f ∈ fs, WFField f.2 = true) → ((acc.fields ++ fs).map (·.1)).Nodup →
+      (toDict fs).foldlM stepF acc = .ok { fields := acc.fields ++ canonSet fs, warnings := acc.warnings } := by
+  intro fs
+  induction fs with
+  | nil => intro acc _ _; simp [toDict, canonSet, pure, Except.pure]
+  | cons f rest ih =>
+    intro acc hwf hnd
+    have hf := hwf f (List.mem_cons_self ..)
+    have hstd := WFField.allStd hf
+    have hne : (canonField f.2).isEmpty = false := by
+      have := canonField_ne_nil f.2 hstd ((WFField_iff f.2).mp hf).1
+      cases hc : canonField f.2 with
+      | nil => exact absurd hc this
+      | cons _ _ => rfl
+    have hnew : f.1 ∉ acc.fields.map (·.1) := by
+      rw [List.map_append, List.map_cons] at hnd
+      intro hmem
+      exact (List.nodup_append.mp hnd).2.2 _ hmem _ (List.mem_cons_self ..) rfl
+    have hs : stepF acc (f.1, fieldToDict f.2) =
+        .ok { fields := acc.fields ++ [(f.1, canonField f.2)], warnings := acc.warnings } := by
+      unfold stepF
+      simp only [loadField_fieldToDict f.1 f.2 hf, hne, putField_new _ _ _ hnew, List.append_nil]
+      rfl
+    show List.foldlM stepF acc ((f.1, fieldToDict f.2) :: toDict rest) = _
+    rw [List.foldlM_cons, hs]
+    show List.foldlM stepF { fields := acc.fields ++ [(f.1, canonField f.2)], warnings := acc.warnings }
+      (toDict rest) = _
+    rw [ih _ (fun x hx => hwf x (List.mem_cons_of_mem _ hx)) (by simpa [List.append_assoc] using hnd)]
+    simp [canonSet, List.append_assoc]
 
 theorem load_dump (fields : List (Line × List Con)) (hwf : WFSet fields) :
     fromDict (toDict fields) = .ok { fields := canonSet fields, warnings := [] } := by
-  sorry
+  rw [fromDict_eq]
+  have := fold_fields fields { fields := [], warnings := [] } hwf.2 (by simpa using hwf.1)
+  simpa using this
+
+theorem nodup_eraseDups : ∀ (l : List Line), l.Nodup → l.eraseDups = l := by
+  intro l
+  induction l with
+  | nil => intro _; rfl
+  | cons a l ih =>
+    intro h
+    rw [List.nodup_cons] at h
+    rw [List.eraseDups_cons]
+    have : l.filter (fun b => !b == a) = l := by
+      rw [List.filter_eq_self]
+      intro b hb
+      have : b ≠ a := fun e => h.1 (e ▸ hb)
+      simpa using this
+    rw [this, ih h.2]
+
+theorem canonField_canon (cs : List Con) (h : AllStd cs) : canonField (canonField cs) = canonField cs := by
+  have hstd' : AllStd (canonField cs) := fun c hc => h c (canonField_sub cs c hc)
+  rw [canonField_eq (canonField cs) hstd', canonField_kinds cs h, canonField_eq cs h]
+  have hfilt : (standardKinds.filter (fun k =>
+      (standardKinds.filter (fun k => (cs.map (·.kind)).contains k)).contains k))
+      = standardKinds.filter (fun k => (cs.map (·.kind)).contains k) := by
+    apply List.filter_congr
+    intro k hk
+    cases hc : (cs.map (·.kind)).contains k with
+    | false =>
+      rw [List.contains_eq_mem, decide_eq_false_iff_not, List.mem_filter]
+      rintro ⟨_, h2⟩
+      rw [hc] at h2; cases h2
+    | true =>
+      rw [List.contains_eq_mem, decide_eq_true_eq, List.mem_filter]
+      exact ⟨hk, hc⟩
+  rw [hfilt]
+  apply filterMap_congr'
+  intro k _
+  rw [← canonField_eq cs h]
+  exact canonField_find cs h k
+
+theorem WFField_canon (cs : List Con) (h : WFField cs = true) : WFField (canonField cs) = true := by
+  have hstd := WFField.allStd h
+  obtain ⟨hne, _, hall⟩ := (WFField_iff cs).mp h
+  rw [WFField_iff]
+  refine ⟨canonField_ne_nil cs hstd hne, ?_, ?_⟩
+  · rw [nodup_eraseDups _ (canonField_nodup cs hstd), List.length_map]
+  · intro c hc
+    rw [isDateField_canon cs hstd]
+    exact hall c (canonField_sub cs c hc)
 
 theorem dump_load_dump (fields : List (Line × List Con)) (hwf : WFSet fields) :
     toDict (canonSet fields) = toDict fields ∧ WFSet (canonSet fields) := by
-  sorry
+  refine ⟨?_, ?_, ?_⟩
+  · unfold toDict canonSet
+    rw [List.map_map]
+    apply List.map_congr_left
+    intro f hf
+    have hstd := WFField.allStd (hwf.2 f hf)
+    simp only [Function.comp]
+    rw [fieldToDict_eq, fieldToDict_eq, canonField_canon f.2 hstd]
+  · have : (canonSet fields).map (·.1) = fields.map (·.1) := by
+      unfold canonSet; rw [List.map_map]; rfl
+    rw [this]; exact hwf.1
+  · intro f hf
+    unfold canonSet at hf
+    obtain ⟨g, hg, rfl⟩ := List.mem_map.mp hf
+    exact WFField_canon g.2 (hwf.2 g hg)
 
 theorem same_constraints (fields : List (Line × List Con)) (hwf : WFSet fields) (name kind : Line) :
     (((canonSet fields).find? (fun f => f.1 == name)).bind (fun f => f.2.find? (fun c => c.kind == kind)))
       = ((fields.find? (fun f => f.1 == name)).bind (fun f => f.2.find? (fun c => c.kind == kind))) := by
-  sorry
+  unfold canonSet
+  rw [List.find?_map]
+  have : ((fun f : Line × List Con => f.1 == name) ∘ (fun f : Line × List Con => (f.1, canonField f.2)))
+      = (fun f : Line × List Con => f.1 == name) := rfl
+  rw [this]
+  cases hf : fields.find? (fun f => f.1 == name) with
+  | none => rfl
+  | some f =>
+    have hmem : f ∈ fields := List.mem_of_find?_eq_some hf
+    have hstd := WFField.allStd (hwf.2 f hmem)
+    simp only [Option.map_some, Option.bind_some]
+    exact canonField_find f.2 hstd kind
 
 theorem unknown_ignored (name : Line) (c : List (Line × JVal)) :
     (loadField name c).map (·.1) =
-      (loadField name (c.filter (fun kv => standardKinds.contains kv.1))).map (·.1) := by
-  sorry
+      (loadField name (c.filter (fun kv => standardKinds.contains kv.1))).map (·.1) :=
+  Aux.unknown_ignored name c
 
 theorem hash_key_silent (name : Line) (pre post : List (Line × JVal)) (k : Line) (v : JVal)
     (hk : k.head? = some '#') (hs : standardKinds.contains k = false) :
-    loadField name (pre ++ (k, v) :: post) = loadField name (pre ++ post) := by
-  sorry
+    loadField name (pre ++ (k, v) :: post) = loadField name (pre ++ post) :=
+  Aux.hash_key_silent name pre post k v hk hs
 
 theorem stripLines_no_trailing_ws (s : Line) :
-    ∀ l ∈ splitNl (stripLines s) [], rstrip l = l := by
-  sorry
+    ∀ l ∈ splitNl (stripLines s) [], rstrip l = l :=
+  Aux.stripLines_no_trailing_ws s
 
-theorem stripLines_id (s : Line) (h : ∀ l ∈ splitNl s [], rstrip l = l) : stripLines s = s := by
-  sorry
+theorem stripLines_id (s : Line) (h : ∀ l ∈ splitNl s [], rstrip l = l) : stripLines s = s :=
+  Aux.stripLines_id s h
 
 theorem stripLines_lines (s : Line) :
-    (splitNl (stripLines s) []).length = (splitNl s []).length := by
-  sorry
+    (splitNl (stripLines s) []).length = (splitNl s []).length :=
+  Aux.stripLines_lines s
 
 end TddaVerif.Props.C09.Lemmas
